@@ -543,7 +543,9 @@ def set_data_dependent_options(args):
 
     args.resolve_ambiguous = 'monoexon_and_fsm' if args.fl_data else 'default'
     args.requires_polya_for_construction = False
-    if args.read_group is None and args.input_data.has_replicas():
+    # group by file name when an experiment consists of several files; applied per experiment in DatasetProcessor.process_sample
+    args.auto_file_name_grouping = args.read_group is None and args.input_data.has_replicas()
+    if args.auto_file_name_grouping:
         args.read_group = "file_name"
     args.use_technical_replicas = args.read_group == "file_name"
 
